@@ -10,7 +10,7 @@ from .. import core, refcodec as rc, refgeo as rg
 from ..core import Outcome, violation
 
 ID = "C01"
-RULE = ("A case = 2..4 stations (full radio mesh) at drawn offsets around a base point anywhere on the globe (|lat| <= 84 deg, all four "
+RULE = ("A case = 2..4 stations (full radio mesh; 1 case in 4: four stations in a row with one-neighbour radio range, SHB and whole-row geo-broadcasts with hop limits 0..10) at drawn offsets around a base point anywhere on the globe (|lat| <= 84 deg, all four "
         "sign quadrants weighted), SIMPLE or CBF area forwarding, handlers on a drawn port set, and a history of 1..12 steps: BTP "
         "requests (BTP-A/B, destination port in or outside the handler set incl. 0 and 65535, 16-bit source port / port info, payload "
         "length classes 0/1/small/~1400, traffic class, hop limit 0..255, transport SHB | GBC/GAC x 3 shapes with drawn axes/azimuth "
@@ -87,7 +87,19 @@ def case_s():
             "ports": st.integers(0, len(PORTSETS) - 1),
             "steps": steps,
         })
-    return st.integers(2, 4).flatmap(build)
+    def line_case(args):
+        # 4 stations in a row, radio range one neighbour: geo-broadcasts to an area containing everybody travel hop by hop, so that the
+        # hop limit decides how far they get
+        cbf, blat, blon, reqs = args
+        steps = []
+        for r in reqs:
+            steps.append(dict(r, t="gbc" if r["t"] != "shb" else "shb", shape=0, a=5000, b=0, angle=0, centre=r["s"] % 4))
+            steps.append({"op": "adv", "ms": 1000})
+        return {"n": 4, "topo": "line", "cbf": cbf, "blat": blat, "blon": blon, "off": [[0, 0], [0, 300], [0, 600], [0, 900]], "ports": 0, "steps": steps[:16]}
+    hl_line = st.sampled_from([0, 1, 2, 2, 3, 3, 4, 10])
+    line = st.tuples(st.booleans(), st.sampled_from([413000000, -337000000, 100000]), st.sampled_from([21000000, -707000000, 1790000000]),
+                     st.lists(st.tuples(req_s(4), hl_line).map(lambda t: dict(t[0], hl=t[1])), min_size=1, max_size=6)).map(line_case)
+    return st.one_of(st.integers(2, 4).flatmap(build), st.integers(2, 4).flatmap(build), st.integers(2, 4).flatmap(build), line)
 
 
 def _payload(step_i, plen, pseed):
@@ -122,7 +134,13 @@ def run_case(case):
             s.set_position(clock.now, p[0], p[1], speed=(i * 700) - 900, heading=i * 900)
             sts.append(s)
             pos.append(p)
-        eth.connect_all()
+        line = case.get("topo") == "line"
+        if line:
+            for i in range(n - 1):
+                eth.connect(i, i + 1)
+            labels.add("line-topology")
+        else:
+            eth.connect_all()
         if any(p[0] < 0 or p[1] < 0 for p in pos):
             labels.add("negative-coordinate")
         expected = {(r, p): [] for r in range(n) for p in ports}     # (receiver, port) -> list of expectation dicts (in order)
@@ -232,7 +250,21 @@ def run_case(case):
                 vs.append(violation(ID, "C01/request-raises:%s:%s" % (t, type(e).__name__), "step %d: %s request of station %d raised %r" % (step_i, t, s, e)))
                 break
             has_handler = port in ports
-            if t == "shb":
+            if line and t in ("shb", "gbc"):
+                # hop distance decides: SHB reaches the direct neighbours; a geo-broadcast whose area holds every station reaches the station
+                # k hops away exactly when the hop limit (the MIB default of 10 when the request gives 0 or 1) is at least k
+                eff = stp["hl"] if stp["hl"] > 1 else 10
+                for r in range(n):
+                    if r == s or not has_handler:
+                        continue
+                    k_ = abs(r - s)
+                    if (t == "shb" and k_ == 1) or (t == "gbc" and k_ <= eff):
+                        expected[(r, port)].append(dict(exp_base))
+                        if t == "gbc" and k_ >= 3 and eff < 2 * (k_ - 1):
+                            labels.add("multi-hop-tight-hop-limit")
+                    elif t == "gbc":
+                        labels.add("area-excludes-a-receiver")      # inside the area but beyond the hop budget
+            elif t == "shb":
                 for r in range(n):
                     if r != s and r not in eth.muted and has_handler:
                         expected[(r, port)].append(dict(exp_base))
@@ -306,7 +338,7 @@ def run_case(case):
         if hiport:
             labels.add("port>=32768")
         interesting = labels & {"negative-coordinate", "payload>=1000", "port>=32768", "guc-via-ls", "second-guc-while-ls-pending",
-                                "unrelated-reception-during-ls", "destination-heard-during-ls", "area-excludes-a-receiver"}
+                                "unrelated-reception-during-ls", "destination-heard-during-ls", "area-excludes-a-receiver", "multi-hop-tight-hop-limit"}
         return Outcome(vs, labels=sorted(labels), nontrivial=bool(n_exp and interesting))
     finally:
         clock.uninstall()
